@@ -148,6 +148,20 @@ fn values(level: usize) -> Vec<O> {
     out
 }
 
+fn deserialize_reader(xml: &str, limit: Option<usize>) -> Result<Result<O, String>, String> {
+    guarded(|| {
+        let script = crate::env::Script::pieces(3);
+        let mut de = Deserializer::from_reader(crate::env::Source::new(xml.as_bytes(), &script));
+        de.event_buffer_size(limit.and_then(NonZeroUsize::new));
+        match O::deserialize(&mut de) {
+            Ok(v) => Ok(v),
+            Err(DeError::TooManyEvents(_)) => Err("TooManyEvents".to_string()),
+            Err(e) => Err(format!("{:?}", e)),
+        }
+    })
+    .map_err(|p| format!("panic: {}", p))
+}
+
 fn deserialize(xml: &str, limit: Option<usize>) -> Result<Result<O, String>, String> {
     guarded(|| {
         let mut de = Deserializer::from_str(xml);
@@ -169,6 +183,15 @@ fn check_doc(v: &O, xml: &str, ref_peak: usize, total_events: usize) -> Result<u
         other => return Err(format!("without a limit the document deserializes as {:?}", other)),
     }
     n += 1;
+    // the copying deserializer (from_reader) has its own replay path: same verdicts at the decisive limits
+    for limit in [None, Some(ref_peak.max(1)), Some(ref_peak.max(2) - 1)] {
+        n += 1;
+        let a = deserialize(xml, limit)?;
+        let b = deserialize_reader(xml, limit)?;
+        if a != b {
+            return Err(format!("with limit {:?} from_str gives {:?} but from_reader gives {:?}", limit, a, b));
+        }
+    }
     let mut succeeded_at: Option<usize> = None;
     for limit in 1..=total_events + 1 {
         n += 1;
@@ -201,7 +224,7 @@ pub fn run(ctx: &Ctx) {
         "values of a struct with an attribute, three list fields (a: strings incl. empty, b: nested structs that have lists named a and b \
          themselves, c: units) and a scalar field, 0..2/3 items per list; for each value EVERY order-preserving interleaving of its \
          children (and of the children of each nested item) is written as a document and deserialized without a limit and with every \
-         event_buffer_size from 1 to (events of the document + 1). Oracle: unlimited => the value whose contiguous serialization was \
+         event_buffer_size from 1 to (events of the document + 1); from_reader (pieces of 3) must agree with from_str without a limit and at the two limits around the reference count. Oracle: unlimited => the value whose contiguous serialization was \
          interleaved (checked against to_string); limited => that value or TooManyEvents, monotone in the limit, and it fails exactly \
          when the reference count of simultaneously held skipped events exceeds the limit. evaluations = deserializations; traces = \
          interleaved documents; non-trivial = documents that need at least one skipped event; states = distinct (events, peak) pairs",
